@@ -73,9 +73,9 @@ pub fn plan(id: &str) -> Option<Plan> {
         "C02" => Plan {
             id: "C02",
             level: "exploration",
-            profiles: vec![MKT, MKT_F, ADM, TX],
-            quick_runs: 1800,
-            thorough_runs: 30_000,
+            profiles: vec![MKT, MKT_F, ADM, TX, INTEG],
+            quick_runs: 2250,
+            thorough_runs: 36_000,
             rule: "seeded runs of the market profile (fault-free and fault-injecting halves); one evaluation = one (instruction, bank) pair whose totals or positions changed, judged bit-exactly; distinct = instruction kind x which totals changed x number of closed slots",
         },
         "C16" => Plan {
@@ -84,13 +84,13 @@ pub fn plan(id: &str) -> Option<Plan> {
             profiles: vec![MKT, MKT_F, ADM, INTEG],
             quick_runs: 2000,
             thorough_runs: 40_000,
-            rule: "seeded runs of the market, admin and integration (solend_deposit against a stub venue) profiles; one evaluation = one user account changed by a successful instruction, all structural invariants judged; distinct = instruction kind x #active slots x tag classes x account flags",
+            rule: "seeded runs of the market, admin and integration (real venue deposits / withdrawals against stub Solend, Kamino and Drift venues) profiles; one evaluation = one user account changed by a successful instruction, all structural invariants judged; distinct = instruction kind x #active slots x tag classes x account flags",
         },
         "C04" => Plan {
             id: "C04",
             level: "exploration",
-            profiles: vec![MKT, MKT_F, ADM],
-            quick_runs: 2100,
+            profiles: vec![MKT, MKT_F, ADM, INTEG],
+            quick_runs: 2800,
             thorough_runs: 30_000,
             rule: "seeded runs; one evaluation = one accepted or health-rejected borrow/withdraw (main timeline or boundary fork) judged against the independent rational risk engine; distinct = ix kind x verdict x #positions x e-mode x zeroed-collateral x isolated x fork",
         },
@@ -201,8 +201,8 @@ pub fn plan(id: &str) -> Option<Plan> {
         "C09" => Plan {
             id: "C09",
             level: "fault_enumeration",
-            profiles: vec![ORA, ORA_F, MKT_F, ADM],
-            quick_runs: 1600,
+            profiles: vec![ORA, ORA_F, MKT_F, ADM, INTEG],
+            quick_runs: 2000,
             thorough_runs: 30_000,
             rule: "oracle-fault profile: 16 Pyth / 12 Switchboard / fixed fault kinds (staleness at max_age -1/0/+1, confidence at 0 / max boundary / clamp region / over max, zero / negative / out-of-range price, partial verification, wrong discriminator, truncated, wrong owner, EMA divergence, omitted/misplaced/surplus oracle accounts) placed on banks someone holds a position in, then an operation depending on that price; after every oracle write and every clock advance the real price adapter is executed on a fork (pulse_bank_price_cache) and its verdict and value compared with the reference; one evaluation = one adapter probe or one judged borrow/withdraw/liquidation/bankruptcy; distinct = oracle kind x reference classification x verdict x trigger",
         },
@@ -224,6 +224,6 @@ pub const ASSUMPTIONS: &[&str] = &[
     "native x86-64 build of the program (same Rust source, overflow-checks on) instead of SBF; compute-unit, heap and stack limits are not modelled",
     "REAL code: marginfi entry/dispatch/constraints/handlers, SPL-Token 7 and Token-2022 6 processors, Pyth receiver SDK and Switchboard on-demand parsers",
     "STUB: account store with atomic commit/rollback, post-instruction runtime rules, CPI privilege rules, System program (CreateAccount/Transfer/Allocate/Assign), Clock/Rent sysvars, Instructions sysvar account",
-    "venue programs: Kamino and Drift are not executed; Solend is a STUB (deposit book-keeping on reserve/obligation bytes only, no token movement) behind the REAL marginfi solend_deposit, used by the INTEG profile of C16 only; positions of the other venue kinds there are byte fixtures; no integration withdraw is executed",
+    "venue programs (Solend, Kamino, Drift): STUBS written for the harness (venues.rs: own big-integer arithmetic rounding against the depositor, real SPL-Token movement between the marginfi liquidity vault and the venue's supply account, staleness refusal) behind the REAL marginfi {solend,kamino,drift}_{deposit,withdraw} and the six REAL exchange-rate-adjusted price adapters; venue reserve / obligation / spot-market / user accounts are byte fixtures; venue banks are created by the real add_bank and then byte-patched to what <venue>_add_pool + init would leave; add_pool / init_obligation / init_user / harvest_reward instructions are not executed; INTEG profile (C02, C04, C09, C16)",
     "sampled exploration: a clean batch is evidence, not proof",
 ];
